@@ -371,14 +371,18 @@ const (
 	layoutSingle = "single-file"
 )
 
-func configYAML(layout string) string {
+func configYAML(layout string, cur Schema) string {
 	res := "resolver:\n  layout: follow-schema\n  dir: graph\n  package: graph\n"
 	if layout == layoutSingle {
 		res = "resolver:\n  layout: single-file\n  filename: graph/resolver.go\n  package: graph\n"
 	}
+	models := ""
+	if cur.resolverFields()[methodKey("Item", "owner")] {
+		// Item.owner gets a resolver by configuration; the entry goes away with the field
+		models = "models:\n  Item:\n    fields:\n      owner:\n        resolver: true\n"
+	}
 	return "schema:\n  - a.graphql\n  - b.graphql\nexec:\n  filename: graph/generated.go\n  package: graph\n" +
-		"model:\n  filename: graph/models_gen.go\n  package: graph\n" + res +
-		"models:\n  Item:\n    fields:\n      owner:\n        resolver: true\nskip_mod_tidy: true\n"
+		"model:\n  filename: graph/models_gen.go\n  package: graph\n" + res + models + "skip_mod_tidy: true\n"
 }
 
 // State is the project tree as far as the property can observe it: the schema files as they
@@ -422,7 +426,7 @@ func (s *State) Hash() string {
 
 // projectFiles renders the state into files for probe.WriteProject.
 func (s *State) projectFiles() map[string]string {
-	files := map[string]string{"gqlgen.yml": configYAML(s.Layout)}
+	files := map[string]string{"gqlgen.yml": configYAML(s.Layout, s.Cur)}
 	for f, c := range s.Cur.render() {
 		files[f] = c
 	}
